@@ -222,7 +222,9 @@ func (e *c08Env) checkBooks(s *c08Snap, after string, causes map[[2]uint64]strin
 	for k := range s.stats {
 		keys = append(keys, k)
 	}
-	sort.Slice(keys, func(i, j int) bool { return keys[i][0] < keys[j][0] || (keys[i][0] == keys[j][0] && keys[i][1] < keys[j][1]) })
+	sort.Slice(keys, func(i, j int) bool {
+		return keys[i][0] < keys[j][0] || (keys[i][0] == keys[j][0] && keys[i][1] < keys[j][1])
+	})
 	for _, pk := range keys {
 		st := s.stats[pk]
 		k := key{pk[0], pk[1]}
